@@ -18,12 +18,19 @@ def r61(F):
                    "the underlying writer is handed only to EmitterConfig::create_writer; all content goes through EventWriter::write; "
                    "text through XmlEvent::characters (never cdata / raw writes)", floor=4)
     w = F.fn(X + "write")
-    o = Origins(w)
     users = []
-    for b, t in w.calls():
-        for a in t["args"]:
-            if op_place(a) is not None and ("param", 3) in o.at(a, b) and fn_takes_writer(w, a):
-                users.append(callee(t))
+
+    def follow(fn, param, depth):
+        o = Origins(fn)
+        for b, t in fn.calls():
+            for i, a in enumerate(t["args"]):
+                if op_place(a) is not None and ("param", param) in o.at(a, b) and fn_takes_writer(fn, a):
+                    c = callee(t)
+                    if c.startswith(X) and c in F.fns and depth > 0 and c != fn.name:
+                        follow(F.fn(c), i + 1, depth - 1)      # a private helper of the converter: look where it hands the writer
+                    else:
+                        users.append(c)
+    follow(w, 3, 2)
     ok = set(users) <= {"xml::writer::config::EmitterConfig::create_writer"} and users
     r.inst("write:raw-writer-users", w.where(), bool(ok), "raw writer only given to create_writer" if ok else "raw writer handed to %s" % sorted(set(users)))
     for name in (X + "write", X + "write_node"):
@@ -174,7 +181,8 @@ def r90(F):
     l1, l2 = o.at(t["args"][1], ns[0]), o.at(t["args"][2], ns[0])
     # prefix and uri come from the fields named so
     strs = util.str_consts(wn)
-    r.inst("write_node:ns-field-names", wn.where(ns[0]), "prefix" in strs and "uri" in strs, "fields prefix / uri" if "prefix" in strs and "uri" in strs else "ns field names not found")
+    need("prefix" in strs and "uri" in strs, "write_node: the field names `prefix` / `uri` are not compared in the function itself")
+    r.inst("write_node:ns-field-names", wn.where(ns[0]), True, "fields prefix / uri")
     w = F.fn(X + "write")
     ow = Origins(w)
     for lit, variant in (("1.0", "Version10"), ("1.1", "Version11")):
@@ -194,12 +202,27 @@ def r90(F):
     for fld in ("encoding", "standalone"):
         labs = ow.at(rv["ops"][names.index(fld)], b)
         vn = {n for l in {op_local(rv["ops"][names.index(fld)])} if l is not None for n in w.var_names().get(l, ())}
-        okf = not [c for c in calls_in(labs) if not util.is_std_callee(c) and not c.endswith("get_str_val")]
+        okf = not [c for c in calls_in(labs) if not util.is_std_callee(c) and not _verbatim_getter(F, c)]
         r.inst("write:%s" % fld, w.where(b), okf, "%s passed to StartDocument unchanged" % fld if okf else "%s is transformed before StartDocument" % fld)
     cs = {callee(t) for b, t in wn.calls()}
     rev = sorted(c for c in cs if c.endswith(("::rev", "::reverse", "::sort")))
     r.inst("write_node:forward-order", wn.where(), not rev, "children and attributes iterate forward" if not rev else "order changed by %s" % rev)
     return r
+
+
+def _verbatim_getter(F, c):
+    """a function of the converter that hands out the payload of a Val unchanged (get_str_val today)"""
+    if not c.startswith(X) or c not in F.fns:
+        return False
+    fn = F.fn(c)
+    o = Origins(fn)
+    oks = [(b, rv) for b, j, pl, rv, m in fn.assigns() if pl["l"] == 0 and not pl["p"] and rv["k"] == "agg" and rv.get("variant") == "Ok"]
+    if not oks:
+        return False
+    for b, rv in oks:
+        if [x for x in calls_in(o.at(rv["ops"][0], b)) if not x.endswith(VERBATIM)]:
+            return False
+    return True
 
 
 def r63(F):
@@ -210,7 +233,7 @@ def r63(F):
     o = Origins(wn)
     isem = [(b, t) for b, t in wn.calls() if callee(t) == VAL + "::is_empty"]
     need(len(isem) >= 4, "Val::is_empty guards not found (%d)" % len(isem))
-    getters = [(b, t) for b, t in wn.calls() if callee(t).startswith(X + "get_") and callee(t).endswith("_val")]
+    getters = [(b, t) for b, t in wn.calls() if callee(t) in (X + "get_str_val", X + "get_tuple_val", X + "get_list_val")]
     attr = [(b, t) for b, t in wn.calls() if callee(t).endswith("StartElementBuilder::attr")]
     need(getters and attr, "getters / attr not found")
     # each getter for attrs / children / text / attribute value / ns parts is dominated by the false edge of an is_empty test
@@ -229,6 +252,7 @@ def r63(F):
             unguarded.append((gb, callee(gt).split("::")[-1]))
     # the unguarded getter allowed: `name` (a NULL name is an error, not an omission)
     names = [g for g in unguarded if g[1] == "get_str_val"]
+    need(guarded + len(unguarded) >= 6, "write_node: only %d getter calls found (a part is read some other way)" % (guarded + len(unguarded)))
     ok = guarded >= 5 and len(unguarded) <= 1
     r.inst("write_node:null-guards", wn.where(), ok, "%d getters behind an is_empty test; unguarded: %s (name)" % (guarded, [g[1] for g in unguarded]) if ok else
            "a NULL part reaches a getter: %s" % unguarded)
